@@ -31,9 +31,23 @@ reg("C06",
             "WiredFn-valued scalars (wired_fn.h identity) are not exercised",
     )
 
+reg("C06",
+    name="C06_passive", src="harness/C06_passive.cpp",
+    anchor_files=["src/hgraph/types/graph_wiring.cpp", "include/hgraph/types/graph_wiring.h", "include/hgraph/types/static_node.h", "src/hgraph/runtime/node.cpp"],
+    quick=dict(defs=dict(NX=2, DMAX=3, WMAX=5), symx=dict(shards=16, **{"max-wall": 600})),
+    thorough=dict(defs=dict(NX=3, DMAX=3, WMAX=7), symx=dict(shards=16, **{"max-wall": 3000, "shard-depth": 8})),
+    reach=["end", "b_ticks_alone", "active_use_ticked"],
+    bounds="one graph: wire<Sum2>(w, A, B) and wire<Sum2>(w, A, passive(B)) (same definition, ports and scalars; only the activity of input b differs), "
+           "both wiring orders enumerated; recorders on both outputs; script sources A, B with NX emissions each (first offset symbolic in [0,DMAX] us, "
+           "gaps in [1,DMAX] us, values in [-1000,1000]); start / window symbolic",
+    outside="other per-use-site markers (ArgTag values other than Passive), InputActivity declared in the node signature (a different definition), "
+            "nested / higher-order call sites",
+    )
+
 META = dict(
     level="bounded symbolic model checking of wiring (graph_wiring.cpp Wiring::add_node interning key hash/equality, build_ranked_graph) together with "
           "the simulation run of the built graph: relational (reference order vs every admissible permutation) and model-based (un-shared model) oracles; "
           "program shapes and permutations enumerated, scalars / times / values symbolic",
-    note="bounds in evidence coverage.harnesses[*].bounds",
+    note="known finding P1 (C06_passive): a passive(b) use and an active use of the same definition/ports/scalars are merged into one instance whose "
+         "activity is that of the FIRST wired use - listed in known_findings.jsonl; bounds in evidence coverage.harnesses[*].bounds",
 )
